@@ -207,6 +207,14 @@ SQL_CONTEXTS = DIALECTS + ["postgresql+naming_convention"]
 
 
 def sql_of(op, dialect):
+    """DDL text (or ERR:<class>) of invoking `op` offline; memoised on the op object (ops are not mutated after generation)"""
+    memo = op.__dict__.setdefault("_verif_sql", {}) if hasattr(op, "__dict__") else {}
+    if dialect not in memo:
+        memo[dialect] = _sql_of(op, dialect)
+    return memo[dialect]
+
+
+def _sql_of(op, dialect):
     buf = io.StringIO()
     opts = {"as_sql": True, "output_buffer": buf}
     if dialect.endswith("+naming_convention"):
@@ -235,6 +243,9 @@ def canon_sql(text):
     for stmt in text.split("\n\n"):
         if re.match(r"\s*CREATE (\w+ )*TABLE ", stmt) and "(\n" in stmt and "\n)" in stmt:
             head, rest = stmt.split("(\n", 1)
+            if "\n)" not in rest:          # a table without columns: nothing to sort
+                out.append(stmt)
+                continue
             body, tail = rest.rsplit("\n)", 1)
             lines = sorted(l.strip().rstrip(",") for l in body.split("\n"))
             stmt = head + "(\n" + "\n".join(lines) + "\n)" + tail
@@ -456,9 +467,16 @@ def gen_leaf(rng, lossy_p=0.12):
         return ops.CreatePrimaryKeyOp(rng.choice([None, "pk_x"]), tn, rng.sample(COLS, rng.choice([1, 2])), schema=sc)
     if kind == "dropConstraint":
         r = rng.random()
-        if r < 0.8:
+        if r < 0.55:
             base = gen_leaf_constraint(rng)
             return ops.DropConstraintOp.from_constraint(base.to_constraint())
+        if r < 0.8:
+            # built directly: its own type_ next to the stored add-op (every constraint kind, primary keys included)
+            base = gen_leaf_constraint(rng)
+            tname = getattr(base, "table_name", None) or base.source_table
+            schema = base.kw.get("source_schema") if isinstance(base, ops.CreateForeignKeyOp) else base.schema
+            type_ = {"primarykey": "primary"}.get(base.constraint_type, base.constraint_type)
+            return ops.DropConstraintOp(base.constraint_name, tname, type_=type_, schema=schema, _reverse=base)
         return ops.DropConstraintOp(rng.choice(["uq_x", "fk_x"]), tn, type_=rng.choice([None, "unique", "foreignkey", "check"]), schema=sc)
     if kind == "alterColumn":
         return gen_alter(rng, lossy)
@@ -509,6 +527,7 @@ def strip_lossy(op):
     """a copy of the op without the attributes listed by lossy_features"""
     import copy
     o = copy.copy(op)
+    o.__dict__.pop("_verif_sql", None)
     if isinstance(o, (ops.CreateTableOp, ops.CreateIndexOp)):
         o.if_not_exists = None
     if isinstance(o, ops.CreateTableOp) and not o._constraints_included:
